@@ -9,11 +9,10 @@
      switch_exact for allow_compressed_keys: REFUTED (inert while x-only keys are allowed; this
        is the documented behaviour of validate_pk), strongest true variant proved.
      accepted_ok / desc_implies_ms for the wsh / sh / bare wrappers and for Tr::new: REFUTED (the
-       wrappers never call validate, Tr::new looks at nothing in the leaf; witnesses below for the
-       classes that exist on /repo 757bc686: or_i / d: inside sh(), more than 201 executed
-       opcodes, non-B leaf through Tr::new), strongest true variants `_partial` / `_residual`
-       proved.  The non-B and pk_h-key classes were repaired in /repo (a8ead875, bd3f29d9) and
-       are now part of the positive statements.                                            *)
+       wrappers never call validate; witnesses below for the classes that exist on /repo
+       6b65f152: or_i / d: inside sh(), more than 201 executed opcodes), strongest true variants
+       `_partial` / `_residual` proved.  The non-B, pk_h-key and Tr::new-leaf classes were
+       repaired in /repo (a8ead875, bd3f29d9, 6b65f152) and are now positive statements.                                            *)
 From Verif Require Import ValidateModel ValidateSpec ValidateProofs ValidateAccept ValidateSwitch
   ValidateExact ValidateEntry.
 Local Open Scope N_scope.
@@ -132,14 +131,13 @@ Proof.
 Qed.
 Print Assumptions C12_accepted_ok.
 
-(* Wsh / Sh / Bare ::from_str, ::new, Descriptor::from_str on them, Tr::new: accepted_ok is false *)
+(* Wsh / Sh / Bare ::from_str, ::new, Descriptor::from_str on them: accepted_ok is false *)
 Theorem C12_accepted_ok_wrappers_refuted :
   (wrapper_from_tree CLegacy x_or_i = EOk /\ wrapper_new CLegacy (x_sum x_or_i) = EOk /\
    ~ obeys CLegacy (x_sum x_or_i)) /\
   (wrapper_from_tree CLegacy x_dupif = EOk /\ ~ obeys CLegacy (x_sum x_dupif)) /\
   (wrapper_from_tree CSegwitv0 x_ops_202 = EOk /\ wrapper_new CSegwitv0 (x_sum x_ops_202) = EOk /\
-   ~ obeys CSegwitv0 (x_sum x_ops_202)) /\
-  (tr_new_leaf (x_sum x_pk_k) = EOk /\ ~ obeys CTap (x_sum x_pk_k)).
+   ~ obeys CSegwitv0 (x_sum x_ops_202)).
 Proof. exact accepted_ok_wrappers_refuted. Qed.
 Print Assumptions C12_accepted_ok_wrappers_refuted.
 
@@ -152,8 +150,14 @@ Theorem C12_accepted_ok_wrappers_partial : forall (c : ctx) (x : expr),
    ~ multipath_mismatch (all_keys (s_nodes (x_sum x))) /\
    (c = CBare -> bare_shape (x_sum x))) /\
   (wrapper_new c (x_sum x) = EOk ->
-   s_base (x_sum x) = BB /\ ~ multipath_mismatch (all_keys (s_nodes (x_sum x)))).
-Proof. exact (fun c x => conj (accepted_ok_wrappers_partial c x) (wrapper_new_ok c (x_sum x))). Qed.
+   s_base (x_sum x) = BB /\ ~ multipath_mismatch (all_keys (s_nodes (x_sum x)))) /\
+  (tr_new_leaf (x_sum x) = EOk ->
+   s_base (x_sum x) = BB /\ ~ multipath_mismatch (all_keys (s_nodes (x_sum x)))) /\
+  tr_new_leaf (x_sum x_pk_k) = EErr (EpTop (TeNonBase BK)).
+Proof.
+  exact (fun c x => conj (accepted_ok_wrappers_partial c x) (conj (wrapper_new_ok c (x_sum x))
+        (conj (tr_new_leaf_ok (x_sum x)) tr_new_leaf_rejects_nonB))).
+Qed.
 Print Assumptions C12_accepted_ok_wrappers_partial.
 
 (* ---- descriptor parser vs miniscript parser with consensus parameters ------------------- *)
